@@ -368,7 +368,6 @@ func trailingBackslashes(s string) int {
 	return n
 }
 
-
 // gooseLineHazard: the input classes GooseFile.StmtDecls mishandles (line filter in front of the
 // scanner); "" = none.  pragma-word: a line containing Down/StatementBegin/StatementEnd/"-- +goose Up"
 // is dropped (ungrouped alternation); line-split: trailing white space (incl. \r) of a line is
